@@ -45,6 +45,12 @@ def record_and_validate(c):
 
 
 def panic_key(p):
+    """(function, message with node ranges removed, text of the source line that panicked)"""
     pn = p["panic"] or {}
     msg = re.sub(r"[A-Z_]+@\d+\.\.\d+", "@", pn.get("msg", ""))
-    return pn.get("func", ""), msg
+    src = ""
+    try:
+        src = open(os.path.join("/repo", pn["file"])).read().split("\n")[pn["line"] - 1].strip()
+    except Exception:
+        pass
+    return pn.get("func", ""), msg, src
